@@ -20,7 +20,8 @@ func init() {
 		Run:   runC09,
 		Explanation: "C09.layout: the end-relative separator tests of date.DefaultParser are turned into a decision table over (byte at len-3 is '-', len-5, len-6, RuleDisableBasic); the accepted layout language L_acc = pattern ∩ (continue valuations) is computed on the DFA of the regexp constant and must satisfy L_acc ⊆ D{4,9}-DD-DD ∪ D{4,9}DDDD (no half-separated form) and Real ⊆ L_acc, Real being the checker's own real-calendar-date language (Gregorian leap rule over decimal digits, self-checked by counting 3 652 425 words of length 8). " +
 			"C09.valid / C09.comp: DefaultParser evaluated on a text of the extended layout with the match returning opaque captures, Atoi(capture k) an opaque number, New and Date()/Year()/Month()/Day() uninterpreted; the comparisons between a component of New(…) and a parsed number are the atoms of a decision tree: the value accepted is New(num 1, num 2, num 3), and it is accepted exactly on the valuation where year, month and day were each compared with the number of the matching capture and found equal — every other valuation ends in an error, and an accepting valuation that never asked about a component is a violation. " +
-			"Under RuleDisableBasic no text of the basic layout reaches another outcome than ErrBasicFormatDisabled, also on the failing side of the calendar guard (a second table extracted with the guard failing: the rule is decided before the calendar). S-ERRZERO, S-WRAP, C18.L for package date. The guard tree is extracted for the extended and basic layouts with 4- and 9-digit years and with RuleDisableBasic clear and set (basic layout under the rule: no accepting valuation); the skeleton of date.pattern is ^<1>[-]<2>[-]<3>$.",
+			"Under RuleDisableBasic no text of the basic layout reaches another outcome than ErrBasicFormatDisabled, also on the failing side of the calendar guard (a second table extracted with the guard failing: the rule is decided before the calendar). S-ERRZERO, S-WRAP, C18.L for package date. The guard tree is extracted for the extended and basic layouts with 4- and 9-digit years and with RuleDisableBasic clear and set (basic layout under the rule: no accepting valuation); the skeleton of date.pattern is ^<1>[-]<2>[-]<3>$." +
+			" C09.paths: the Scan obligations of C07.deleg (a time.Time and nothing else) and the late-entry rule filed here: every path by which a text becomes a date is the decided parser or hands its text to it unchanged.",
 		NotDecided:  []string{"time.Date∘Time.Date is the identity on real dates (trusted summary)", "a validity guard written as an explicit days-in-month table is outside the enumerated idioms and would be reported undecided"},
 		Assumptions: []string{"time.Date normalises out-of-range components and is the identity on in-range ones", "strconv.Atoi is exact on digit strings of at most 9 digits"},
 		Technique:   "regular-language inclusion on DFAs + taint/sanitizer dominator rule over go/ssa",
